@@ -416,22 +416,29 @@ package fosite
 //@   ensures err == nil ==> par_exists == upd(old(par_exists), requestURI, false) && faults == old(faults)
 //@   ensures err != nil ==> par_exists == old(par_exists) && faults == old(faults) + 1
 
-// TRUSTED for now (range over a map is not yet verifiable): Merge on the reference implementation.
+// Merge on the reference implementation: ids, client, session are taken over, the scope/audience lists become the unions
+// (as sets), and every form key of the merged request REPLACES the receiver's values for that key (C17: the pushed
+// parameters win over whatever the receiver's form held).
 //@ func (*Request).Merge
-//@   trusted
+//@   requires a != nil && request != nil && a.Form != nil
 //@   modifies a.ID, a.RequestedAt, a.Client, a.Session, a.RequestedScope, a.GrantedScope, a.RequestedAudience, a.GrantedAudience, mapof(a.Form)
-//@   ensures forall k string :: (k in a.Form) == (old(k in a.Form) || k in request.GetRequestForm())
-//@   ensures forall k string :: a.Form != request.GetRequestForm() && k in request.GetRequestForm() ==> a.Form[k] == request.GetRequestForm()[k]
-//@   ensures forall k string :: !(k in request.GetRequestForm()) ==> a.Form[k] == old(a.Form[k])
+//@   ensures [C17.merge-replaces-form-values] forall k string :: (k in a.Form) == (old(k in a.Form) || k in request.GetRequestForm())
+//@   ensures [C17.merge-replaces-form-values] forall k string :: a.Form != request.GetRequestForm() && k in request.GetRequestForm() ==> a.Form[k] == request.GetRequestForm()[k]
+//@   ensures [C17.merge-replaces-form-values] forall k string :: !(k in request.GetRequestForm()) ==> a.Form[k] == old(a.Form[k])
 //@   ensures a.ID == request.GetID() && a.RequestedAt == request.GetRequestedAt() && a.Client == request.GetClient() && a.Session == request.GetSession()
 //@   ensures forall x string :: insl(a.GrantedScope, x) <==> (insl(old(a.GrantedScope), x) || insl(request.GetGrantedScopes(), x))
 //@   ensures forall x string :: insl(a.RequestedScope, x) <==> (insl(old(a.RequestedScope), x) || insl(request.GetRequestedScopes(), x))
 //@   ensures forall x string :: insl(a.GrantedAudience, x) <==> (insl(old(a.GrantedAudience), x) || insl(request.GetGrantedAudience(), x))
 //@   ensures forall x string :: insl(a.RequestedAudience, x) <==> (insl(old(a.RequestedAudience), x) || insl(request.GetRequestedAudience(), x))
+//@   invariant loop#1 $i <= len(pre(request.GetRequestedScopes())) && (forall x string :: insl(a.RequestedScope, x) ==> insl(old(a.RequestedScope), x) || insl(pre(request.GetRequestedScopes()), x)) && (forall x string :: insl(old(a.RequestedScope), x) ==> insl(a.RequestedScope, x)) && (forall j int :: 0 <= j && j < $i ==> insl(a.RequestedScope, pre(request.GetRequestedScopes())[j]))
+//@   invariant loop#2 $i <= len(pre(request.GetGrantedScopes())) && (forall x string :: insl(a.GrantedScope, x) ==> insl(old(a.GrantedScope), x) || insl(pre(request.GetGrantedScopes()), x)) && (forall x string :: insl(old(a.GrantedScope), x) ==> insl(a.GrantedScope, x)) && (forall j int :: 0 <= j && j < $i ==> insl(a.GrantedScope, pre(request.GetGrantedScopes())[j]))
+//@   invariant loop#3 $i <= len(pre(request.GetRequestedAudience())) && (forall x string :: insl(a.RequestedAudience, x) ==> insl(old(a.RequestedAudience), x) || insl(pre(request.GetRequestedAudience()), x)) && (forall x string :: insl(old(a.RequestedAudience), x) ==> insl(a.RequestedAudience, x)) && (forall j int :: 0 <= j && j < $i ==> insl(a.RequestedAudience, pre(request.GetRequestedAudience())[j]))
+//@   invariant loop#4 $i <= len(pre(request.GetGrantedAudience())) && (forall x string :: insl(a.GrantedAudience, x) ==> insl(old(a.GrantedAudience), x) || insl(pre(request.GetGrantedAudience()), x)) && (forall x string :: insl(old(a.GrantedAudience), x) ==> insl(a.GrantedAudience, x)) && (forall j int :: 0 <= j && j < $i ==> insl(a.GrantedAudience, pre(request.GetGrantedAudience())[j]))
+//@   invariant loop#5 [C17.merge-replaces-form-values] a.Form == pre(a.Form) && (forall k string :: (k in a.Form) == (old(k in a.Form) || ($visited(k) && k in pre(request.GetRequestForm())))) && (forall k string :: a.Form != pre(request.GetRequestForm()) && $visited(k) && k in pre(request.GetRequestForm()) ==> a.Form[k] == pre(request.GetRequestForm())[k]) && (forall k string :: !$visited(k) || !(k in pre(request.GetRequestForm())) ==> a.Form[k] == old(a.Form[k]))
 
 //@ func (*Fosite).authorizeRequestFromPAR
 //@   let uri = old(formget(r.Form, "request_uri"))
-//@   requires f != nil && r != nil && request != nil
+//@   requires f != nil && r != nil && request != nil && request.Form != nil
 //@   modifies par_exists, faults, fields(request), mapof(request.Form)
 //@   ensures !result0 && err == nil ==> request.Form == old(request.Form) && request.State == old(request.State) && request.Client == old(request.Client) && request.ResponseMode == old(request.ResponseMode) && (forall k string :: (k in request.Form) == old(k in request.Form) && request.Form[k] == old(request.Form[k]))
 //@   ensures [C17.one-time] result0 ==> err == nil && old(par_exists[uri]) && !par_exists[uri]
@@ -1104,14 +1111,19 @@ package fosite
 
 // The revocation, pushed-authorization and device-authorization endpoints act only for the client that authenticated.
 //@ pureiface fosite.RevocationHandler.none
+// revoke_calls: number of RevokeToken calls made on revocation handlers so far (C08: a revocation request is answered with
+// success only after EVERY configured handler has been consulted - a handler answers nil for a token it does not know).
+//@ ghost revoke_calls : int
 //@ interface RevocationHandler.RevokeToken
 //@   modifies everything
-//@   ensures authn == old(authn)
+//@   ensures authn == old(authn) && revoke_calls == old(revoke_calls) + 1
 //@ func (*Fosite).NewRevocationRequest
 //@   requires f != nil && r != nil && f.Store != nil && (forall c2 context.Context :: f.Config.GetSecretsHasher(c2) != nil)
 //@   modifies everything
 //@   assert @call(RevokeToken)#1 [C10.revocation-requires-auth] client == authn[r]
 //@   invariant loop#1 [C10.revocation-requires-auth] client == authn[r]
+//@   invariant loop#1 [C08.every-handler-consulted] $i <= len(pre(f.Config.GetRevocationHandlers(ctx))) && len(pre(f.Config.GetRevocationHandlers(ctx))) == len(old(f.Config.GetRevocationHandlers(ctx))) && revoke_calls == old(revoke_calls) + $i
+//@   ensures [C08.every-handler-consulted] err == nil ==> revoke_calls == old(revoke_calls) + old(len(f.Config.GetRevocationHandlers(ctx)))
 
 //@ func NewDeviceRequest
 //@   ensures result != nil && fresh(result)
